@@ -228,8 +228,9 @@ func c11Program(p *c11Plan) string {
 		fmt.Fprintf(&b, "sink %s\n    kindmatch [%s],\n    priority %d\n{\n", s.Name, strings.Join(ks, ", "), s.Prio)
 		// arr: a local list built from a constant literal and then written in place
 		b.WriteString("    let id := event.state.id\n    let acc := id\n    let arr := [0, 0]\n    arr[0] := id\n")
+		b.WriteString("    let cnt := 0\n")
 		if s.Loops > 0 {
-			fmt.Fprintf(&b, "    for i in range(1, %d) {\n", s.Loops)
+			fmt.Fprintf(&b, "    for i in range(1, %d) {\n        cnt := cnt + 1\n", s.Loops+1) // (not range(1, 1): DESIGN.md 9, observations)
 			if s.Shared {
 				b.WriteString("        acc := shared(acc)\n")
 			} else {
@@ -248,7 +249,7 @@ func c11Program(p *c11Plan) string {
 		if s.Count {
 			b.WriteString("    bump()\n")
 		}
-		fmt.Fprintf(&b, "    probe(%q, id, acc, event.state.id, event.name, arr[0])\n", s.Name)
+		fmt.Fprintf(&b, "    probe(%q, id, acc, event.state.id, event.name, arr[0], cnt)\n", s.Name)
 		fmt.Fprintf(&b, "    if event.state.fail%s {\n", s.Name)
 		if s.Mode == 1 {
 			// a plain error of the variable scope, raised by a statement of the sink body itself
@@ -262,7 +263,7 @@ func c11Program(p *c11Plan) string {
 		}
 		b.WriteString("    }\n}\n")
 	}
-	b.WriteString("sink sc\n    kindmatch [\"c11x.c\"],\n    priority 0\n{\n    let id := event.state.id\n    let acc := shared(id)\n    probe(\"sc\", id, acc, event.state.id, event.name, id)\n    if event.state.failc {\n        raise(\"T-sc\", id, [id, acc])\n    }\n}\n")
+	b.WriteString("sink sc\n    kindmatch [\"c11x.c\"],\n    priority 0\n{\n    let id := event.state.id\n    let acc := shared(id)\n    probe(\"sc\", id, acc, event.state.id, event.name, id, 0)\n    if event.state.failc {\n        raise(\"T-sc\", id, [id, acc])\n    }\n}\n")
 	return b.String()
 }
 
@@ -271,6 +272,7 @@ type c11Probe struct {
 	id, acc, idAgain float64
 	name             string
 	arr0             float64
+	cnt              float64 // iterations of the sink's loop
 }
 
 func c11Run(p *c11Plan) {
@@ -278,14 +280,15 @@ func c11Run(p *c11Plan) {
 	vs := newGlobalScope()
 	probes := map[int][]c11Probe{}
 	vs.SetValue("probe", &goFunc{name: "probe", f: func(tid uint64, args []interface{}) (interface{}, error) {
-		if len(args) != 6 {
+		if len(args) != 7 {
 			simrt.Fail("oracle:probe", "probe-args", "probe called with %d args", len(args))
 		}
 		id, _ := num(args[1])
 		acc, _ := num(args[2])
 		id2, _ := num(args[3])
 		arr0, _ := num(args[5])
-		probes[int(id)] = append(probes[int(id)], c11Probe{fmt.Sprint(args[0]), id, acc, id2, fmt.Sprint(args[4]), arr0})
+		cnt, _ := num(args[6])
+		probes[int(id)] = append(probes[int(id)], c11Probe{fmt.Sprint(args[0]), id, acc, id2, fmt.Sprint(args[4]), arr0, cnt})
 		return nil, nil
 	}})
 	src := c11Program(p)
@@ -482,6 +485,9 @@ func c11Run(p *c11Plan) {
 			for k, pr := range got {
 				if pr.sink != run[k].Name {
 					simrt.Fail("oracle:invocations", "invocation-order", "event %d: invocation %d was sink %s, want %s", e.ID, k, pr.sink, run[k].Name)
+				}
+				if wantIt := run[k].Loops + 1; run[k].Loops > 0 && pr.cnt != float64(wantIt) {
+					simrt.Fail("oracle:isolation", "loop-iterations", "sink %s invoked for event %d ran the body of `for i in range(1, %d)` %v times", pr.sink, e.ID, wantIt, pr.cnt)
 				}
 				if pr.id != float64(e.ID) || pr.acc != float64(e.ID) || pr.idAgain != float64(e.ID) || pr.name != fmt.Sprintf("ev%d", e.ID) || pr.arr0 != float64(e.ID) {
 					simrt.Fail("oracle:isolation", "isolation", "sink %s invoked for event %d saw event id %v, local %v, event id (again) %v, event name %q, first item of its local list %v",
